@@ -17,6 +17,7 @@ import Driver.RangeModule
 import Driver.CacheLog
 import Driver.Sock
 import Driver.RwSpec
+import Driver.SemLog
 /-! `driver <model>`: one op per stdin line, one canonical result line per op on stdout. -/
 
 structure Model where
@@ -42,6 +43,7 @@ def dispatch (model : String) : Option Model :=
   | "ser" => some ⟨Driver.Ser.St, {}, Driver.Ser.step⟩
   | "file" => some ⟨Driver.File.St, {}, Driver.File.step⟩
   | "rpc" => some ⟨Driver.Rpc.D, {}, Driver.Rpc.step⟩
+  | "semlog" => some ⟨Driver.SemLog.D, {}, Driver.SemLog.step⟩
   | "rwspec" => some ⟨Driver.RwSpec.D, {}, Driver.RwSpec.step⟩
   | "sock" => some ⟨Driver.Sock.D, {}, Driver.Sock.step⟩
   | "doio" => some (pureModel Driver.Sock.doio)
